@@ -18,6 +18,11 @@ import (
 type C11Monitor struct {
 	prevKnown map[int]map[string]gossip.NodeMetadata
 	ever      map[[2]string]bool
+	// Taint classifies views that suffer from known finding F3 (a delta delayed
+	// across the receiver's expiry of the owner is applied to the re-created
+	// view, which then reports a version without holding the older entries -
+	// here: without the left marker)
+	Taint *TaintTracker
 }
 
 func NewC11Monitor() *C11Monitor { return &C11Monitor{prevKnown: map[int]map[string]gossip.NodeMetadata{}, ever: map[[2]string]bool{}} }
@@ -66,6 +71,8 @@ func (m *C11Monitor) AfterStep(s *Sim, a *Action) {
 				}
 				if lv == 0 && meta.Version >= own.Version {
 					s.Fail("left-marker-lost", "%s: %s declared itself left but its own state (version %d) no longer carries the left marker, and this view is caught up with it (version %d) without knowing it left", where, meta.ID, own.Version, meta.Version)
+				} else if lv != 0 && meta.Version >= lv && m.Taint != nil && m.Taint.Tainted(p.Idx, x.Idx) {
+					s.Known["delta-base-ahead-of-view"]++
 				} else if lv != 0 && meta.Version >= lv {
 					s.Fail("left-unseen", "%s: the view is at version %d, past the owner's left marker (version %d), but does not show the node as left", where, meta.Version, lv)
 				}
@@ -204,7 +211,10 @@ func fullProfile() *Profile {
 }
 
 func c11Monitors(s *Sim) {
-	s.Monitors = append(s.Monitors, NewC11Monitor())
+	t := NewTaintTracker()
+	mon := NewC11Monitor()
+	mon.Taint = t
+	s.Monitors = append(s.Monitors, t, mon)
 	s.EmitMons = append(s.EmitMons, &EmissionMonitor{})
 }
 
@@ -303,8 +313,10 @@ func runC11(sh *core.Shard, a props.Args) {
 		variant := []string{"random", "crash-closure", "leave-closure"}[i%3]
 		fmt.Printf("CASE C11 run=%d variant=%s cfg=%+v\n", i, variant, cfg)
 		s := New(cfg)
+		taint := NewTaintTracker()
 		mon := NewC11Monitor()
-		s.Monitors = append(s.Monitors, mon)
+		mon.Taint = taint
+		s.Monitors = append(s.Monitors, taint, mon)
 		s.EmitMons = append(s.EmitMons, &EmissionMonitor{})
 		s.Bootstrap(true)
 		p := fullProfile()
